@@ -16,12 +16,14 @@ Traces == Batch.traces
 NT == Len(Traces)
 
 VARIABLES tid, l, verdict
-tvars == <<si, s, bad, hist, tid, l, verdict>>
+tvars == <<si, s, bad, hist, pick, tid, l, verdict>>
 
 TInit == /\ tid \in 1..NT /\ l = 1 /\ verdict = "run"
-         /\ si = ImplInit /\ s = InitState(Nss) /\ bad = {} /\ hist = <<>>
+         /\ si = ImplInit /\ s = InitState(Nss, Srvs) /\ bad = {} /\ hist = <<>>
+         /\ pick = NoPick
 
-CallOf(e) == Call(e.op, e.k, e.ns, e.all, IF e.op = "SetPull" THEN e.ok ELSE e.tradok, e.m, e.id)
+CallOf(e) == Call(e.op, e.srv, e.k, e.ns, e.all,
+                  IF e.op = "SetPull" THEN e.ok ELSE e.tradok, e.m, e.id, e.ot, e.coe)
 
 Drift(e, r, st2) ==
   IF e.op \in {"RemoveNs", "SetPull"} THEN {}
@@ -30,11 +32,11 @@ Drift(e, r, st2) ==
              THEN F("objs", e.objs = r.objs) \cup F("eos", e.eos = r.eos)
                   \cup F("ctxpresent", (e.ctx = 0) = (r.ctx = 0))
              ELSE {})
-       \cup F("nctx", e.nctx = -1 \/ e.nctx = Cardinality(DOMAIN st2.ctx))
+       \cup F("nctx", e.nctx = -1 \/ e.nctx = Cardinality(DOMAIN st2.ctx[T(e.srv)]))
 
 TNext ==
   /\ verdict = "run"
-  /\ UNCHANGED <<tid, hist>>
+  /\ UNCHANGED <<tid, hist, pick>>
   /\ IF l > Len(Traces[tid])
      THEN /\ verdict' = "ok"
           /\ PrintT(<<"V", tid, "ok", l - 1>>)
